@@ -6,8 +6,13 @@ func init() { registry["C04"] = checkC04 }
 
 // file contents derived from the path; "big" has sizes that are exact multiples of the 32 KiB zlib window
 func v1(p string) string {
-	if p == "big" {
+	switch p {
+	case "big":
 		return strings.Repeat("0123456789abcdef", 2048)
+	case "ad", "t":
+		return "" // an empty file
+	case "D", "test.c":
+		return p + " without a newline at the end"
 	}
 	return p + " v1\n"
 }
@@ -47,6 +52,7 @@ func checkC04(e *RunEnv) *CheckResult {
 				steps = append(steps, Run(append([]string{"add"}, al...)...).WithTags(t...))
 				steps = append(steps, Run(append([]string{"rm"}, al...)...).WithTags(t...))
 			}
+			steps = append(steps, Run("rm", "d", "-r").WithTags(pathArgTags(a, []string{"d"})...), Run("rm", "-r", "d/s").WithTags(pathArgTags(a, []string{"d/s"})...))
 			for _, p := range paths {
 				if d, ok := a.W[p]; ok {
 					if string(d) != v2(p) {
